@@ -520,7 +520,24 @@ func (w *World) addFact(out map[string]bool, f *ssa.Function, cond ssa.Value, va
 		hasND := func(m map[string]bool) bool {
 			return m["call:NumDigits"] || m["call:(*Decimal).NumDigits"]
 		}
-		if (x.Op == token.GTR && hasND(lx) && ly["c.Precision"]) || (x.Op == token.LSS && hasND(ly) && lx["c.Precision"]) {
+		// the digit count of ONE value compared with the precision (an estimate computed from several digit
+		// counts and exponents is a bound, not the count)
+		isCount := func(v ssa.Value) bool {
+			for {
+				switch c := v.(type) {
+				case *ssa.Convert:
+					v = c.X
+					continue
+				case *ssa.ChangeType:
+					v = c.X
+					continue
+				}
+				break
+			}
+			call, ok := v.(*ssa.Call)
+			return ok && strings.HasSuffix(strings.TrimSuffix(w.calleeName(call), ")"), "NumDigits")
+		}
+		if (x.Op == token.GTR && hasND(lx) && isCount(x.X) && ly["c.Precision"]) || (x.Op == token.LSS && hasND(ly) && isCount(x.Y) && lx["c.Precision"]) {
 			out["NumDigits>Precision="+tv(val)] = true
 		}
 		// x.Sign()==0 style
